@@ -134,6 +134,16 @@ CHECKS = {
             "evaluation is not modelled yet): equivalent re-layouts and single-coordinate overrides run on the implementation, "
             "bit-identical answers required (away from the overridden coordinate's two intervals, taken from the trench foot).",
             "proof about the layout/inheritance model + re-layout and override-locality oracle on the implementation", "4 C10"),
+    "C13": ("Theorems (Properties_C13.v, axiom-free, for every number interpretation): World::properties as modelled has "
+            "exactly two outcomes, a std::exception or a vector of the announced size, and every entry of the vector is finite as "
+            "soon as the background values are finite and every model maps finite blocks to finite blocks (the slot machinery "
+            "neither invents a value nor leaves a slot unwritten); the 2-D interface fails only by an exception; termination of "
+            "the modelled kernels is by construction (structural recursion on the Newton bound, node count, vertex list). Not a "
+            "theorem: finiteness of each arithmetic model at every input and absence of undefined behaviour in the C++ - "
+            "partial; decided by the search: degenerate-location queries (vertices, edges, trench coordinates and chords, slab "
+            "tip, plume axis, depth 0, poles, +-180 meridian with +-0.0, planet centre, model bottom, far away) on generated "
+            "worlds of every feature type, finite-or-exception and no dead/hanging process; thorough tier under ASan+UBSan.",
+            "proof of totality and finiteness-preservation of the slot machinery + degenerate-location search (sanitizers in the thorough tier)", "4 C13"),
 }
 
 NOT_YET = {
